@@ -1,4 +1,5 @@
 import SA.Model.Policy
 namespace SA.Drv.Policy
-def entries : List (String × (List String → String)) := [("policy", SA.Policy.handle), ("polnet", SA.Policy.handlePolnet)]
+def entries : List (String × (List String → String)) := [("policy", SA.Policy.handle), ("polnet", SA.Policy.handlePolnet),
+  ("poltls", SA.Policy.handlePoltls)]
 end SA.Drv.Policy
